@@ -271,6 +271,92 @@ theorem createDmaOp_weights_spec (d : DmaD) (arch : ArchD) (s t : AddrRange) (hp
           injection h with h; injection h with h1 h2
           exact ⟨srcRegion, dstRegion, depth, s', t', hs, hd, hdep, hdma, h1.symm, h2.symm⟩
 
+/-! ### clamp bounds -/
+
+/-- the real-valued bound `v` in the quantisation (scale `s`, zero point `z`): `z + round_away(float32(v) / float32(s))`
+    — TensorFlow Lite's `CalculateActivationRangeQuantized` applies exactly this to each bound -/
+def specBound (fo : FloatOps) (s : Option Fl) (z : Int) (v : Fl) : Option Int := (fo.qdiv v (s.getD fo.one)).map (z + ·)
+
+/-- multiplying the integer `q` by the scale and quantising with the same scale returns `q` -/
+def RoundTrip (fo : FloatOps) (s : Fl) (ik : Nat) (q : Int) : Prop := fo.qdiv (fo.mulInt s ik q) s = some q
+
+theorem quantiseOpt_eq (fo : FloatOps) (v : Option Fl) (s : Option Fl) (zp : Int) (r : Option Int)
+    (h : quantiseOpt fo v true s zp = .ok r) : r = v.bind (specBound fo s zp) := by
+  unfold quantiseOpt at h
+  cases v with
+  | none => injection h with h; simp [← h]
+  | some x =>
+    simp only [quantise, ↓reduceIte, quantiseF32] at h
+    simp only [Option.bind_some, specBound]
+    cases hq : fo.qdiv x (s.getD fo.one) with
+    | none => simp [hq] at h
+    | some k => simp only [hq] at h; injection h with h; simp [← h]
+
+theorem quantiseOpt_ok_of (fo : FloatOps) (v : Option Fl) (s : Option Fl) (zp : Int)
+    (h : ∀ x, v = some x → ∃ k, fo.qdiv x (s.getD fo.one) = some k) :
+    quantiseOpt fo v true s zp = .ok (v.bind (specBound fo s zp)) := by
+  unfold quantiseOpt
+  cases v with
+  | none => rfl
+  | some x =>
+    obtain ⟨k, hk⟩ := h x rfl
+    simp [quantise, quantiseF32, hk, specBound]
+
+/-- `preAddBound` followed by quantisation with zero point 0 gives the bound of the tensor's own quantisation -/
+theorem preAdd_quantise (fo : FloatOps) (s : Option Fl) (zk : Nat) (z : Int) (v w : Option Fl) (r : Option Int)
+    (hpre : preAddBound fo (s.getD fo.one) zk z v = .ok w)
+    (hrt : ∀ x k, v = some x → fo.qdiv x (s.getD fo.one) = some k → RoundTrip fo (s.getD fo.one) zk (z + k))
+    (h : quantiseOpt fo w true s 0 = .ok r) : r = v.bind (specBound fo s z) := by
+  unfold preAddBound at hpre
+  cases v with
+  | none => injection hpre with hpre; subst hpre; simpa using quantiseOpt_eq fo none s 0 r h
+  | some x =>
+    simp only [quantiseF32] at hpre
+    cases hq : fo.qdiv x (s.getD fo.one) with
+    | none => simp [hq] at hpre
+    | some k =>
+      simp only [hq] at hpre
+      injection hpre with hpre; subst hpre
+      have := quantiseOpt_eq fo _ s 0 r h
+      rw [this]
+      simp only [Option.bind_some, specBound, hq, Option.map_some]
+      have hr := hrt x k rfl hq
+      unfold RoundTrip at hr
+      simp [hr]
+
+/-! ### `setCommon`: activation and OFM -/
+
+theorem commonOfm_spec (c : StripeD) (arch : ArchD) (f : FmB) (h : commonOfm c arch = .ok f) :
+    ∃ fm0 : FM, f = withQuant { fm0 with shape := blockOf c.ofmBox } (getOfmQuant c c.ofm) := by
+  unfold commonOfm at h
+  split at h
+  · cases h
+  · rename_i fm0 _
+    injection h with h
+    exact ⟨fm0, h.symm⟩
+
+theorem setCommon_act_ofm (fo : FloatOps) (c : StripeD) (arch : ArchD) (kind : Kind) (b : BlockB)
+    (h : setCommon fo c arch kind = .ok b) :
+    commonOfm c arch = .ok b.ofm ∧ createNpuActivation fo c.op (useZeroPoint0 c c.ofm.dtype false) = .ok b.act := by
+  unfold setCommon at h
+  split at h
+  · cases h
+  · split at h
+    · cases h
+    · rename_i ofmB hofm
+      split at h
+      · cases h
+      · split at h
+        · cases h
+        · rename_i act hact
+          split at h
+          · cases h
+          · split at h
+            · cases h
+            · injection h with h
+              subst h
+              exact ⟨hofm, hact⟩
+
 /-! ### vocabulary of the property statements (`Props/C06Build.lean`) -/
 
 /-- an operand as the command carries it: tensor, box, operator-level 4-D shape -/
